@@ -220,7 +220,7 @@ def unmerge_init(w):
         base = [["m"] + b.split("/") for b in BASE] if sc["via"] != "ops" else []
         rm = [dict(path=r["path"], type=r["type"]) for r in w.abs_entries(sc["rm"])]
         return dict(kind="replace" if sc["via"] == "replace" else "unmerge", rm=rm, newc=w.abs_entries(sc["cset"]),
-                    offset=w.abs_offset(), base=base, links=w.links(before, [sc["rm"], sc["cset"]]))
+                    offset=w.abs_offset(), base=base, links=w.links(before, [sc["rm"], sc["cset"]]), mounts=[])
     return extra
 
 
